@@ -217,6 +217,63 @@ def _documented_code(mode, req, rep, line):
 CROSS_POOL = [None, True, False, 0, 1, -1, 1.0, 1.5, "", "aa", [], {}, [1], {"a": 1}]
 
 
+def spelling_cases(tier, seed):
+    """The documented requests as they may legitimately be written on the wire: JSON leaves the
+    client free to pad with white space (any amount), order the members as it likes and escape
+    characters; none of that changes the classification."""
+    out = []
+    for mode, pool in (("v5", TEMPLATES_V5), ("v1", TEMPLATES_V1)):
+        for name in sorted(pool):
+            for sp in ("plain", "spaced", "padded-2k", "padded-1MiB", "padded-3MiB", "reordered",
+                       "escaped", "crlf", "tabs-and-newlines-inside"):
+                out.append({"mode": mode, "tpl": name, "spelling": sp})
+    return out
+
+
+def _spell(req, sp):
+    text = json.dumps(req)
+    if sp == "spaced":
+        return json.dumps(req, indent=2).replace("\n", " ").encode()
+    if sp.startswith("padded"):
+        n = {"padded-2k": 2048, "padded-1MiB": (1 << 20) + 17, "padded-3MiB": 3 << 20}[sp]
+        return (text[:1] + " " * n + text[1:]).encode()
+    if sp == "reordered":
+        return json.dumps(dict(reversed(list(req.items())))).encode()
+    if sp == "escaped":
+        esc = lambda t: "".join("\\u%04x" % ord(ch) for ch in t)      # noqa: E731
+        return ("{" + ",".join('"%s":%s' % (esc(k), json.dumps(v)) for k, v in req.items()) +
+                "}").encode()
+    if sp == "crlf":
+        return text.encode() + b"\r"
+    if sp == "tabs-and-newlines-inside":
+        return text.replace(", ", ",\t").replace(": ", ":\t ").encode()
+    return text.encode()
+
+
+def run_spelling(c):
+    mode = c["mode"]
+    tpl = (TEMPLATES_V5 if mode == "v5" else TEMPLATES_V1)[c["tpl"]]
+    w = mw.default_world()
+    w.adv_plan = {"final": "total"}
+    p = mw.stack(w, v1=(mode == "v1"))
+    h = mw.handler(p)
+    raw = _spell(tpl, c["spelling"])
+    if b"\n" in raw:
+        raise HarnessError("a request is one line")
+    mark = len(w.log)
+    out, exc = mw.serve_line(h, raw)
+    mw.check_sim(w)
+    rep = mw.parse_reply(out)
+    if exc is not None or rep is None:
+        raise Violation("spelling-not-answered:" + c["spelling"], "%s/%s: %r %r" % (
+            mode, c["tpl"], out[:80], exc))
+    if rep["errorcode"] not in (0, 1) or (c["tpl"] != "version" and not w.apdus(mark)):
+        raise Violation("verdict:%s-not-in:ACC" % rep["errorcode"], "mode %s, the documented "
+                        "%s request written '%s' (%d bytes) -> %r" % (
+                            mode, c["tpl"], c["spelling"], len(raw), rep))
+    return Out(["spelling:" + c["spelling"], "mode:" + mode], True)
+
+
 class WarmSingleMutations:
     """The single-mutation enumeration once more, each request arriving right after the
     un-mutated request of its template was served by the same manager, and - when refused - sent
@@ -302,7 +359,8 @@ REQUIRED_LABELS = {
         "verdict:-904", "verdict:-101", "verdict:-102", "verdict:-103", "verdict:-204",
         "verdict:-205", "verdict:-301", "verdict:-2", "verdict:-666", "mut:delete",
         "mut:replace-int", "mut:replace-str", "mut:replace-list", "mut:replace-dict",
-        "mut:addkey", "ambiguous", "reconnection-pending", "after-the-nominal-request"] + ["tpl:" + n for n in TEMPLATES_V5]
+        "mut:addkey", "ambiguous", "reconnection-pending", "after-the-nominal-request",
+        "spelling:padded-3MiB", "spelling:escaped"] + ["tpl:" + n for n in TEMPLATES_V5]
     for t in ("quick", "thorough")}
 
 
@@ -320,6 +378,9 @@ def stages(tier):
     return [EnumStage("single-mutations", SingleMutations, run_case,
                       exhaustive={"quick": True, "thorough": True},
                       budget_s={"quick": 100, "thorough": 300}),
+            EnumStage("spellings-through-the-server", spelling_cases, run_spelling,
+                      exhaustive={"quick": True, "thorough": True},
+                      budget_s={"quick": 60, "thorough": 120}),
             EnumStage("single-mutations-after-the-nominal-request", WarmSingleMutations,
                       run_case, exhaustive={"quick": True, "thorough": True},
                       budget_s={"quick": 100, "thorough": 300}),
